@@ -121,6 +121,8 @@ def CarveN (asg : List String) : CExpr → Bool
   | .call _ _ _ _ => false
   | .stmtexpr _ _ _ => false
   | .seqexpr _ _ _ _ _ => false
+  | .callx _ _ _ _ _ => false
+  | .xmacro _ _ _ => false
 def CarveNs (asg : List String) : List CExpr → List CT → Bool
   | [], _ => true
   | _ :: _, [] => true
